@@ -41,6 +41,15 @@
 (*                      > maxAgeExternal, so every cached copy gets stale)  *)
 (*   EntryRead/EntryWrite  the Entry transaction split at the row lock, for *)
 (*                      databases with real concurrency (Procs # {})        *)
+(*   IssueExt(e,pos)    a credential of an EXTERNAL issuer e (not hosted    *)
+(*                      here; its list is served by e itself) with a status *)
+(*                      entry at a position class of e's list. e is named   *)
+(*                      after the size of its list: "min" (exactly the 16kB *)
+(*                      minimum), "odd" (16kB + 1 byte), "double" (32kB);   *)
+(*                      positions: 0 first, 1 last of a minimum list, 2     *)
+(*                      first beyond it, 3 last of the list, 4 beyond the   *)
+(*                      list.  Revocation by bit must be effective for      *)
+(*                      every index the list covers.                        *)
 (* The outsider's credential "fx" carries a status entry that points into   *)
 (* the list of another issuer (forged entry).                               *)
 (*                                                                         *)
@@ -65,6 +74,8 @@ CONSTANTS
     ListIssuerChecked,  \* fetched list credential must be issued by the issuer of the credential under verification (F15)
     ListSubjectChecked, \* fetched list credential must have credentialSubject.id = the URL named in the entry
     RevIssuerChecked,   \* RegisterRevocation: issuer = credential id prefix = owner of the proof key, signature valid
+    ExtSizes,           \* external issuers = sizes of their lists: subset of {"min", "odd", "double"}
+    FullListRead,       \* the verifier keeps the WHOLE bitstring of a downloaded list (not only the first 16kB)
     ResignBeforeExpiry, \* Credential(): re-sign when no more than MinLeft is left
     ResignRereads,      \* Credential(): the revocations are read INSIDE the re-sign transaction (not taken from a snapshot read before it)
     Servers,            \* goroutines serving a list in two steps (ServeBegin / ServeResign)
@@ -80,8 +91,13 @@ CredName(k) == "c" \o ToString(k)
 Own == {CredName(k) : k \in 1..MaxCreds}
 Creds == Own \cup (IF ForeignTarget = None THEN {} ELSE {"fx"})
 MaxPages == (MaxCreds + B - 1) \div B
-Lists == Issuers \X (1..MaxPages)
+AllIssuers == Issuers \cup ExtSizes
+Lists == (Issuers \X (1..MaxPages)) \cup (ExtSizes \X {1})
 Slots == 0..(B - 1)
+ExtPos == 0..4
+\* positions a credential of external issuer e can be given; 4 (and for a minimum list everything above 1) is outside the list
+Positions(e) == IF e = "min" THEN {0, 1, 4} ELSE ExtPos
+InList(pos) == pos # 4
 ForgedSrcs == {"forged-set", "forged-clear", "otherlist"}
 Outsider == "x"
 
@@ -112,7 +128,7 @@ Init ==
     /\ nIssued = 0
     /\ cred = [c \in Creds |-> IF c = "fx" THEN [iss |-> Outsider, kind |-> "foreign", list |-> <<ForeignTarget, 1>>, slot |-> 0]
                                            ELSE NoCred]
-    /\ pages = [i \in Issuers |-> <<>>]
+    /\ pages = [i \in AllIssuers |-> <<>>]
     /\ revoked = {}
     /\ known = [n \in Nodes |-> {}]
     /\ cache = [n \in Nodes |-> [l \in Lists |-> NoCopy]]
@@ -125,7 +141,7 @@ Init ==
     /\ hist = <<>>
 
 Issued(c) == cred[c].kind # "-"
-Exists(l) == l[1] \in Issuers /\ l[2] >= 1 /\ l[2] <= Len(pages[l[1]])
+Exists(l) == l[1] \in AllIssuers /\ l[2] >= 1 /\ l[2] <= Len(pages[l[1]])
 Pg(l) == pages[l[1]][l[2]]
 NewPage == [last |-> 0, bits |-> {}, stored |-> {}, left |-> Validity]
 Quiet == \A p \in Procs : epc[p] = "idle"
@@ -144,7 +160,7 @@ AllocPages(i, pg, sl) == [pages EXCEPT ![i] = [Extend(@, pg) EXCEPT ![pg].last =
 
 \* pg, sl: the position handed out (model: NextAlloc; trace validation: as observed)
 IssueObs(i, kind, pg, sl) ==
-    /\ Procs = {} /\ nIssued < MaxCreds /\ pg \in 1..MaxPages /\ sl \in Slots
+    /\ Procs = {} /\ nIssued < MaxCreds /\ pg \in 1..MaxPages /\ sl \in Slots /\ kind \in {"sl", "net"}
     /\ LET c == CredName(nIssued + 1) IN
        /\ nIssued' = nIssued + 1
        /\ IF kind = "sl"
@@ -157,13 +173,25 @@ IssueObs(i, kind, pg, sl) ==
 
 Issue(i, kind) == IssueObs(i, kind, NextAlloc(i).page, NextAlloc(i).slot)
 
+\* a credential of external issuer e with a status entry at position pos of e's list (e's own business: no Entry() involved)
+IssueExt(e, pos) ==
+    /\ Procs = {} /\ nIssued < MaxCreds /\ e \in ExtSizes /\ pos \in Positions(e) /\ "ext" \in Kinds
+    /\ \A d \in Own : ~(cred[d].kind = "ext" /\ cred[d].iss = e /\ cred[d].slot = pos)
+    /\ LET c == CredName(nIssued + 1) IN
+       /\ nIssued' = nIssued + 1
+       /\ cred' = [cred EXCEPT ![c] = [iss |-> e, kind |-> "ext", list |-> <<e, 1>>, slot |-> pos]]
+       /\ pages' = [pages EXCEPT ![e] = IF Len(@) = 0 THEN <<NewPage>> ELSE @]
+       /\ Log([a |-> "Issue", i |-> e, kind |-> "ext", c |-> c, page |-> 1, slot |-> pos])
+    /\ UNCHANGED <<revoked, known, cache, ticks, forges, must, epc, esnap, spc, ssnap>>
+
 (***************************************************************************)
 (* issuer.Revoke                                                            *)
 (***************************************************************************)
 \* did:web credential: StatusList2021.Revoke sets the bit and re-signs the list in one transaction;
-\* a second call fails with ErrRevoked (primary key of status_list_entry)
+\* a second call fails with ErrRevoked (primary key of status_list_entry).
+\* An external issuer does the same with its own list - for the positions the list has.
 RevokeStatus(c) ==
-    /\ c \in Own /\ cred[c].kind = "sl" /\ Quiet
+    /\ c \in Own /\ cred[c].kind \in {"sl", "ext"} /\ (cred[c].kind = "ext" => InList(cred[c].slot)) /\ Quiet
     /\ LET l == cred[c].list IN
        IF cred[c].slot \in Pg(l).bits
        THEN /\ UNCHANGED <<pages, revoked>>
@@ -185,7 +213,8 @@ RevokeNet(c) ==
 (***************************************************************************)
 (* StatusList2021.Credential (the GET handler of the list)                  *)
 (***************************************************************************)
-NeedsResign(l) == ResignBeforeExpiry /\ Pg(l).left <= MinLeft
+\* (an external issuer signs its list afresh for every GET)
+NeedsResign(l) == l[1] \in ExtSizes \/ (ResignBeforeExpiry /\ Pg(l).left <= MinLeft)
 LeftAfterServe(l) == IF NeedsResign(l) THEN Validity ELSE Pg(l).left
 \* a GET in one piece: nothing comes between its reads and its transaction
 ServePages(l) == [pages EXCEPT ![l[1]][l[2]].left = LeftAfterServe(l),
@@ -199,7 +228,7 @@ Serve(l) ==
 
 \* the GET in two pieces. First the reads: is the list managed, the stored list, does it live long enough?
 ServeBegin(s, l) ==
-    /\ spc[s] = "idle" /\ Exists(l) /\ Quiet
+    /\ spc[s] = "idle" /\ Exists(l) /\ l[1] \in Issuers /\ Quiet
     /\ IF NeedsResign(l)
        THEN /\ spc' = [spc EXCEPT ![s] = "resign"]
             /\ ssnap' = [ssnap EXCEPT ![s] = [list |-> l, bits |-> Pg(l).bits]]
@@ -240,8 +269,10 @@ Deliver(c, k, r, n) == DeliverObs(c, k, r, n, k = "genuine" \/ ~RevIssuerChecked
 OtherPage(l) == <<l[1], IF l[2] = 1 THEN 2 ELSE 1>>
 OtherIssuerList(l) == <<CHOOSE j \in Issuers : j # l[1], 1>>
 Stale(n, l) == ~cache[n][l].has \/ ~cache[n][l].fresh
+\* what the node keeps of a downloaded bitstring
+Kept(l, bits) == IF FullListRead \/ l[1] \notin ExtSizes THEN bits ELSE bits \cap {0, 1}
 \* what a client gets: the stored list after the GET's own (possible) re-sign
-GenuineCopy(l) == [has |-> TRUE, bits |-> ServePages(l)[l[1]][l[2]].stored, fresh |-> TRUE, from |-> l, signer |-> l[1]]
+GenuineCopy(l) == [has |-> TRUE, bits |-> Kept(l, ServePages(l)[l[1]][l[2]].stored), fresh |-> TRUE, from |-> l, signer |-> l[1]]
 \* the list credential the issuer node produces for this GET (NoList: 404 / unreachable / answered by the attacker)
 Produced(l, src) ==
     CASE src = "up" -> IF Exists(l) THEN l ELSE NoList
@@ -251,7 +282,7 @@ Produced(l, src) ==
 \* what the client receives
 Answer(l, src) ==
     CASE src \in {"up", "otherlist"} -> IF Produced(l, src) = NoList THEN NoCopy ELSE GenuineCopy(Produced(l, src))
-      [] src = "forged-set" -> [has |-> TRUE, bits |-> Slots, fresh |-> TRUE, from |-> l, signer |-> Outsider]
+      [] src = "forged-set" -> [has |-> TRUE, bits |-> IF l[1] \in ExtSizes THEN Kept(l, 0..3) ELSE Slots, fresh |-> TRUE, from |-> l, signer |-> Outsider]
       [] src = "forged-clear" -> [has |-> TRUE, bits |-> {}, fresh |-> TRUE, from |-> l, signer |-> Outsider]
       [] OTHER -> NoCopy
 \* update(): signature valid for the list's own issuer (always true here), subject id = URL, [issuer = issuer of c]
@@ -268,7 +299,7 @@ ModelVerdict(c, n, src, lic) ==
     VerdictWith(c, n, IF cred[c].kind = "net" THEN NoCopy ELSE CopyAfter(c, n, src, lic))
 \* the verdict of a verification that needs no refresh (or whose refresh fails)
 CurVerdict(c, n) == VerdictWith(c, n, IF cred[c].kind = "net" THEN NoCopy ELSE cache[n][cred[c].list])
-RevokedOn(l) == {d \in Own : cred[d].kind = "sl" /\ cred[d].list = l /\ cred[d].slot \in Pg(l).bits}
+RevokedOn(l) == {d \in Own : cred[d].kind \in {"sl", "ext"} /\ cred[d].list = l /\ cred[d].slot \in Pg(l).bits}
 
 \* lic: whether the issuer of the fetched list is compared with the issuer of c
 VerifyL(c, n, src, lic) ==
@@ -283,12 +314,13 @@ VerifyL(c, n, src, lic) ==
                 pl == Produced(l, src)
             IN /\ (~fetch => src = "up")
                /\ (src \in ForgedSrcs => forges < MaxForge /\ c \in Own)
+               /\ (src = "otherlist" => cred[c].kind # "ext")
                /\ forges' = IF src \in ForgedSrcs THEN forges + 1 ELSE forges
                /\ pages' = IF fetch /\ pl # NoList THEN ServePages(pl) ELSE pages
                /\ cache' = IF ok THEN [cache EXCEPT ![n][l] = [a EXCEPT !.fresh = RenewCreatedAt \/ ~cache[n][l].has]] ELSE cache
                \* obligation: the node refreshed the list from the issuer node for a credential of the list's own issuer
                \* (a download for the outsider's credential does not count: the node may refuse a list not issued by x)
-               /\ must' = IF ok /\ src = "up" /\ cred[c].kind = "sl" THEN [must EXCEPT ![n] = @ \cup RevokedOn(l)] ELSE must
+               /\ must' = IF ok /\ src = "up" /\ cred[c].kind \in {"sl", "ext"} THEN [must EXCEPT ![n] = @ \cup RevokedOn(l)] ELSE must
     /\ Log([a |-> "Verify", c |-> c, n |-> n, src |-> src, v |-> ModelVerdict(c, n, src, lic)])
     /\ UNCHANGED <<nIssued, cred, revoked, known, ticks, epc, esnap, spc, ssnap>>
 
@@ -297,7 +329,7 @@ Verify(c, n, src) == VerifyL(c, n, src, ListIssuerChecked)
 \* verifier of the issuer node: the managed list is always up to date
 LocalVerdict(c) == IF Exists(cred[c].list) /\ cred[c].slot \in Pg(cred[c].list).stored THEN "revoked" ELSE "valid"
 VerifyLocal(c) ==
-    /\ Local /\ Issued(c) /\ cred[c].kind # "net" /\ Quiet
+    /\ Local /\ Issued(c) /\ cred[c].kind \notin {"net", "ext"} /\ Quiet
     /\ Log([a |-> "VerifyLocal", c |-> c, v |-> LocalVerdict(c)])
     /\ UNCHANGED <<nIssued, cred, pages, revoked, known, cache, ticks, forges, must, epc, esnap, spc, ssnap>>
 
@@ -305,7 +337,7 @@ Dec(x) == IF x = 0 THEN 0 ELSE x - 1
 Tick ==
     /\ ticks < MaxTicks /\ Quiet
     /\ ticks' = ticks + 1
-    /\ pages' = [i \in Issuers |-> [p \in 1..Len(pages[i]) |-> [pages[i][p] EXCEPT !.left = Dec(@)]]]
+    /\ pages' = [i \in AllIssuers |-> [p \in 1..Len(pages[i]) |-> [pages[i][p] EXCEPT !.left = Dec(@)]]]
     /\ cache' = [n \in Nodes |-> [l \in Lists |-> [cache[n][l] EXCEPT !.fresh = FALSE]]]
     /\ Log([a |-> "Tick"])
     /\ UNCHANGED <<nIssued, cred, revoked, known, forges, must, epc, esnap, spc, ssnap>>
@@ -346,6 +378,7 @@ EntryWrite(p) ==
 
 Next ==
     \/ \E i \in Issuers, k \in Kinds : Issue(i, k)
+    \/ \E e \in ExtSizes, pos \in ExtPos : IssueExt(e, pos)
     \/ \E c \in Own : RevokeStatus(c) \/ RevokeNet(c)
     \/ \E l \in Lists : Serve(l) \/ \E s \in Servers : ServeBegin(s, l)
     \/ \E s \in Servers : ServeResign(s)
@@ -365,8 +398,10 @@ Spec == Init /\ [][Next]_vars
 (***************************************************************************)
 TypeOK ==
     /\ nIssued \in 0..MaxCreds /\ revoked \subseteq Own
-    /\ \A i \in Issuers : Len(pages[i]) <= MaxPages
-    /\ \A i \in Issuers : \A p \in 1..Len(pages[i]) : pages[i][p].last \in Slots /\ pages[i][p].bits \subseteq Slots /\ pages[i][p].stored \subseteq Slots /\ pages[i][p].left \in 0..Validity
+    /\ \A i \in AllIssuers : Len(pages[i]) <= MaxPages
+    /\ \A i \in AllIssuers : \A p \in 1..Len(pages[i]) : /\ pages[i][p].last \in Slots /\ pages[i][p].left \in 0..Validity
+                                                       /\ pages[i][p].bits \subseteq (IF i \in ExtSizes THEN ExtPos ELSE Slots)
+                                                       /\ pages[i][p].stored \subseteq pages[i][p].bits
 
 \* status-list positions handed to credentials are never shared
 SlotsUnique ==
@@ -376,7 +411,7 @@ SlotsOwn == \A c \in Own : cred[c].kind = "sl" => cred[c].list[1] = cred[c].iss 
 
 \* a set bit is never cleared (lists only grow)
 BitsMonotone ==
-    [][\A i \in Issuers : \A p \in 1..Len(pages[i]) : /\ Len(pages'[i]) >= p
+    [][\A i \in AllIssuers : \A p \in 1..Len(pages[i]) : /\ Len(pages'[i]) >= p
                                                         /\ pages[i][p].bits \subseteq pages'[i][p].bits
                                                         /\ pages[i][p].stored \subseteq pages'[i][p].stored]_vars
 
@@ -391,10 +426,10 @@ Revocable(c) == IF cred[c].kind = "foreign" THEN Exists(cred[c].list) /\ cred[c]
                 ELSE c \in revoked
 IssuerOnly ==
     /\ \A n \in Nodes : known[n] \subseteq revoked
-    /\ \A c \in Own : cred[c].kind = "sl" => (c \in revoked <=> cred[c].slot \in Pg(cred[c].list).bits)
-    /\ \A i \in Issuers : \A p \in 1..Len(pages[i]) :
-           pages[i][p].bits \subseteq {cred[c].slot : c \in {d \in Own : cred[d].kind = "sl" /\ cred[d].list = <<i, p>>}}
-    /\ \A i \in Issuers : \A p \in 1..Len(pages[i]) : pages[i][p].stored \subseteq pages[i][p].bits
+    /\ \A c \in Own : cred[c].kind \in {"sl", "ext"} => (c \in revoked <=> cred[c].slot \in Pg(cred[c].list).bits)
+    /\ \A i \in AllIssuers : \A p \in 1..Len(pages[i]) :
+           pages[i][p].bits \subseteq {cred[c].slot : c \in {d \in Own : cred[d].kind \in {"sl", "ext"} /\ cred[d].list = <<i, p>>}}
+    /\ \A i \in AllIssuers : \A p \in 1..Len(pages[i]) : pages[i][p].stored \subseteq pages[i][p].bits
     /\ \A n \in Nodes, l \in Lists : cache[n][l].has => cache[n][l].signer = l[1]    \* no copy issued by another party
     /\ \A n \in Nodes : \A c \in Creds : (Issued(c) /\ CurVerdict(c, n) = "revoked") => Revocable(c)
     /\ \A c \in Creds : (Issued(c) /\ cred[c].kind # "net" /\ LocalVerdict(c) = "revoked") => Revocable(c)
